@@ -90,6 +90,26 @@ def compare(exp, res):
     return None
 
 
+def known_isolated(exp, res):
+    """exact classifier of the recorded finding `isolated-residue-keyerror`: the user's residue graph has a residue without
+    neighbours next to other residues, the specification lets gen_params' map stage complete, and the real gen_params raised a
+    KeyError inside MapToMolecule.add_blocks in that very stage (every event before it matched)"""
+    ee, ge = exp["evs"], res["events"]
+    k = next((i for i in range(min(len(ee), len(ge))) if ee[i]["ev"] != ge[i]["ev"]), None)
+    if k is None:
+        return False
+    a, b = ee[k], ge[k]
+    if not (a["prog"] == b["prog"] == "gen_params" and a["ev"]["stage"] == b["ev"]["stage"] == "map" and a["ev"]["ok"] and not b["ev"]["ok"]
+            and not b["ev"]["inj"]):
+        return False
+    chain = u.chain_of(exp["case"])
+    g = exp["expect"]["json"]["g"] if chain[a["ev"]["p"] - 1]["ug"] == "seq" else None
+    if not g or g["n"] < 2 or all(any(i in e for e in g["edges"]) for i in g["ids"]):
+        return False
+    un = [x for x in res["unplanned"] if x["p"] == a["ev"]["p"]]
+    return bool(un) and un[0]["exc"].startswith("KeyError") and "add_blocks" in un[0]["where"]
+
+
 def plan_of(exp):
     for e in exp["evs"]:
         if e["ev"]["kind"] == "stage" and e["ev"]["inj"]:
@@ -129,7 +149,10 @@ def replay_export(ck, exps, wd, sd):
         if x["case"]["mode"] == "both" and x["nfail"] == 0 and x["expect"]["gro2"]["st"] == "full":
             stats["both_equal"] += 1
         d = compare(x, r)
-        if d:
+        if d and known_isolated(x, r):
+            ck.violation({"kind": "S->I", "exp": x, "observed": r, "seed": sd}, sig="isolated-residue-keyerror",
+                         what="%s: %s" % (case_label(x["case"]), d))
+        elif d:
             ck.violation({"kind": "S->I", "exp": x, "observed": r, "seed": sd},
                          what="%s%s: %s" % (case_label(x["case"]), (", injected failure at program %(p)d stage %(stage)s" % job["plan"]) if job["plan"] else "", d))
     return stats
@@ -199,10 +222,20 @@ def random_case(rng, k):
             "box": 10.0}
 
 
-LIBRARY = [("martini3", [("PEO", 7)], 0.47, 1), ("martini3", [("PMMA", 5)], 0.4, 2), ("martini3", [("PEO", 4), ("PMMA", 3)], 0.4, 1),
-           ("martini3", [("PS", 5)], 0.4, 1), ("martini3", [("PS", 3), ("PEO", 4)], 0.4, 2), ("martini3", [("PE", 8)], 0.47, 1),
-           ("martini3", [("PVA", 6)], 0.4, 1), ("martini2", [("PEO", 9)], 0.47, 2)]
-LIBRARY_SLOW = [("gromos53A6", [("P3HT", 3)], 0.3, 1)]
+# (library, polymer names, sigma of the bead types in the rendered .top, molecules); chain lengths are drawn from the seed
+LIBRARY = [("martini3", ["PEO"], 0.47, 1), ("martini3", ["PMMA"], 0.4, 2), ("martini3", ["PS"], 0.4, 1), ("martini3", ["PS", "PEO"], 0.4, 2),
+           ("martini3", ["PVA"], 0.4, 1), ("martini3", ["P3HT"], 0.4, 1), ("martini3", ["PDMS"], 0.4, 2), ("martini3", ["DEX"], 0.4, 1),
+           ("martini2", ["PEO"], 0.47, 2), ("martini2", ["PS"], 0.45, 1), ("martini2", ["PP"], 0.45, 3)]
+LIBRARY_SLOW = [("oplsaaLigParGen", ["PEO"], 0.3, 1), ("gromos53A6", ["P3HT"], 0.3, 1)]
+
+
+def library_specs(rng, full):
+    out = []
+    for lib, names, sigma, count in LIBRARY:
+        out.append((lib, [(n, rng.randint(3, 6) if len(names) > 1 else rng.randint(5, 10)) for n in names], sigma, count))
+    if full:
+        out += [(lib, [(n, 3) for n in names], sigma, count) for lib, names, sigma, count in LIBRARY_SLOW]
+    return out
 
 
 def _library_header(spec):
@@ -247,26 +280,38 @@ def random_plan(rng, case):
     return {"p": p, "stage": rng.choice(stages)}
 
 
+CHUNK = 30
+
+
 def validate(ck, traces, name, expect_reject=False):
+    """batches of CHUNK traces, one TLC run each (concurrently); returns {trace number (1-based): matched events} of the rejected"""
     wd = c.workdir(PROP, name)
-    f = wd / "traces.json"
-    f.write_text(json.dumps(traces))
-    res = c.tlc("PolyplyTrace", "Pp_trace.cfg", workers=1, env={"TRACE_FILE": str(f)}, check=False, timeout=3000)
-    rej = res.tagged("REJECTED")
-    if res.rc != 0 and not rej and not res.inv_violated:
-        raise c.MachineryError("PolyplyTrace failed: %s" % res.out[-3000:])
-    rejected = {}
-    for r in rej:
-        rejected.update({int(t): int(m) for t, m in r})
-    if expect_reject:
-        return rejected, res
-    ck.add_tlc(res)
-    if res.inv_violated:
-        ck.violation({"kind": "I->S invariant", "invariant": res.inv_violated, "counterexample": c.counterexample(res)[:5000]},
-                     what="a P-layer law of Polyply (%s) is violated on a state a recorded real chain went through" % res.inv_violated)
-        return rejected, res
-    ck.traces += len(traces) - len(rejected)
-    return rejected, res
+    parts = [traces[i:i + CHUNK] for i in range(0, len(traces), CHUNK)] or [[]]
+    jobs = []
+    for k, part in enumerate(parts):
+        f = wd / ("traces_%d.json" % k)
+        f.write_text(json.dumps(part))
+        jobs.append(("PolyplyTrace", "Pp_trace.cfg", {"workers": 1, "env": {"TRACE_FILE": str(f)}, "check": False, "timeout": 3000}))
+    rejected, last = {}, None
+    for k, res in enumerate(c.tlc_many(jobs, workers_each=1)):
+        last = res
+        rej = res.tagged("REJECTED")
+        if res.rc != 0 and not rej and not res.inv_violated:
+            raise c.MachineryError("PolyplyTrace failed: %s" % res.out[-3000:])
+        for r in rej:
+            rejected.update({int(t) + k * CHUNK: int(m) for t, m in r})
+        if expect_reject:
+            continue
+        ck.add_tlc(res)
+        if res.inv_violated:
+            ck.violation({"kind": "I->S invariant", "invariant": res.inv_violated, "counterexample": c.counterexample(res)[:5000]},
+                         what="a P-layer law of Polyply (%s) is violated on a state a recorded real chain went through" % res.inv_violated)
+            # the batch stopped at the violation: its traces give no further verdict
+            for t in range(len(parts[k])):
+                rejected.setdefault(t + 1 + k * CHUNK, -1)
+    if not expect_reject:
+        ck.traces += len(traces) - len(rejected)
+    return rejected, last
 
 
 def trace_direction(ck, wd, cases, sd, label):
@@ -308,6 +353,8 @@ def trace_direction(ck, wd, cases, sd, label):
         ck.nontrivial.add("trace " + json.dumps([job["case"], job["plan"]], sort_keys=True))
     rejected, _ = validate(ck, traces, "trace_%s_%d" % (label, sd))
     for tid, matched in sorted(rejected.items()):
+        if matched < 0:
+            continue
         job, r = kept[tid - 1]
         evs = r["events"]
         nxt = evs[matched] if matched < len(evs) else None
@@ -408,7 +455,7 @@ def run(tier):
     rng = random.Random(sd * 7919 + 17)
     cases = [random_case(rng, k) for k in range(nrand)]
     accepted, tstats = trace_direction(ck, wd, cases, sd, "r")
-    libs = library_cases(LIBRARY + (LIBRARY_SLOW if full else []))
+    libs = library_cases(library_specs(random.Random(sd * 131 + 3), full))
     ck.require(len(libs) >= 4, "fewer than 4 library force fields usable (%d)" % len(libs))
     acc2, lstats = trace_direction(ck, wd, libs, sd + 1, "l")
     ck.extra["traces_random"] = tstats
